@@ -265,7 +265,8 @@ def evaluate_negative(neg, wd, stats=None):
         elif p["verdict"] == "rejected":
             want = "E%d" % neg["expect_code"]
             located = [h for h in p["heads"] if h[0] == neg["module_file"]]
-            if want not in p["codes"] or not located:
+            ok_codes = {want, "E477"} if neg["kind"] == "import" else {want}
+            if not (ok_codes & set(p["codes"])) or not located:
                 viol.append(("wrong_rejection", "order=%s: expected %s in %s, got codes %s at %s" %
                              (order, want, neg["module_file"], p["codes"], p["heads"][:3])))
     seen = {}
@@ -459,12 +460,15 @@ def build_program_cases(seed, i, tier):
         for n in negs:
             nfiles = dict(files)
             mf = sp.files[n["module"]]
-            nfiles[mf] = nfiles[mf] + "\n" + n["probe"]
+            if n["kind"] == "import":
+                nfiles[mf] = n["import_line"] + nfiles[mf]
+            else:
+                nfiles[mf] = nfiles[mf] + "\n" + n["probe"]
             norders = [names, list(reversed(names))]
             out["negatives"].append({"files": nfiles, "orders": norders, "entropy": rng.getrandbits(64),
                                      "module_file": mf, "item": n["item"], "kind": n["kind"],
                                      "reason": n["reason"], "expect_code": n["expect_code"],
-                                     "probe": n["probe"], "structure": structure})
+                                     "probe": n["probe"], "import_line": n.get("import_line"), "structure": structure})
     # histories: this program's first split interleaved with an unrelated program
     for h in range(cfg["histories"]):
         sp, files, _names = splits[h % len(splits)]
